@@ -7,10 +7,15 @@ from . import api
 
 class VStruct:
     """instance of a class: mutable record (reference semantics inside one path)"""
-    __slots__ = ('sort', 'pycls', 'f', 'tag')
+    __slots__ = ('sort', 'pycls', 'f', 'tag', 'oid')
+    _next = [0]
 
-    def __init__(self, sort, pycls, f, tag=None):
+    def __init__(self, sort, pycls, f, tag=None, oid=None):
         self.sort, self.pycls, self.f, self.tag = sort, pycls, f, tag
+        if oid is None:
+            VStruct._next[0] += 1
+            oid = VStruct._next[0]
+        self.oid = oid          # object identity: a snapshot (the entry state of the same object) keeps it
 
     def __repr__(self):
         return f'<{self.pycls.__name__ if self.pycls else self.sort} {self.f}>'
